@@ -56,7 +56,7 @@ theorem metaForward_metaOK2 : (l l' : List Seg) → Pre2 l → metaForward l = s
           simp only [hl] at h
           by_cases hc : (l == SLASH && (s.isLast || nextOptional rest)) = true
           · rw [if_pos hc] at h; cases h
-            exact ⟨by rw [hcore.nil_iff]; exact p1, fun hh => (by simp [hp] at hh), ih⟩
+            exact ⟨by rw [hcore.nil_iff]; exact p1, fun hh => (by simp at hh), ih⟩
           · rw [if_neg hc] at h; cases h
             exact ⟨by rw [hcore.nil_iff]; exact p1, fun hh => (by rw [hp] at hh; cases hh), ih⟩
       · simp only [hp, if_true] at h
@@ -181,16 +181,19 @@ theorem cmpOfConst_escFree (l : Bytes) (h : l.contains BSL = false) : (cmpOfCons
 /-! ### `findParamLen` on a filled path -/
 
 /-- A parameter segment whose value `v` is followed by `tail` in the detection path: if the first
-    occurrence of the next constant's search text is right behind `v` (and it is the only one, for a
-    greedy parameter), and a named value holds no `/`, then `findParamLen` returns `|v|`. -/
-theorem findParamLen_fill {seg : Seg} {rest : List Seg} {v tail : Bytes}
+    occurrence of the next constant's search text is right behind `v`, a named value holds no `/`,
+    and – for a greedy parameter whose search text `strings.Count` finds more than once – the
+    right-to-left loop `findGreedyParamLen` lands on `|v|` (`hgreedy`, discharged by
+    `greedy_strip` for clean fills), then `findParamLen` returns `|v|`. -/
+theorem findParamLen_fill_core {seg : Seg} {rest : List Seg} {v tail : Bytes}
     (hm : MetaOK (seg :: rest)) (hm2 : MetaOK2 (seg :: rest)) (hp : seg.isParam = true)
     (hnext : nextNonGreedyParam rest = false)
     (hesc : removeEscapeChar (nextConstCmp rest) = nextConstCmp rest)
     (hslash : seg.isGreedy = true ∨ v.contains SLASH = false)
     (hlast : rest = [] → tail = [])
     (hidx : rest ≠ [] → indexOf (v ++ tail) (nextConstCmp rest) = some v.length)
-    (honce : rest ≠ [] → seg.isGreedy = true → count (v ++ tail) (nextConstCmp rest) ≤ 1) :
+    (hgreedy : rest ≠ [] → seg.isGreedy = true → count (v ++ tail) (nextConstCmp rest) > 1 →
+      findGreedyParamLen (v ++ tail) (count (v ++ tail) (nextConstCmp rest)) seg = v.length) :
     findParamLen (v ++ tail) seg = v.length := by
   have hcmp : seg.comparePart = nextConstCmp rest := by rw [hm.2.1 hp, hesc]
   have hlen0 : seg.length = 0 := hm2.2.1 hp hnext
@@ -210,14 +213,12 @@ theorem findParamLen_fill {seg : Seg} {rest : List Seg} {v tail : Bytes}
   · have hr : rest ≠ [] := fun h => hl (hm2.1.mpr h)
     simp only [hl, Bool.false_eq_true, if_false, hlen0, bne_self_eq_false, Bool.false_and]
     have hi := hidx hr
-    have hgreedy : (seg.isGreedy && decide (count (v ++ tail) seg.comparePart > 1)) = false := by
-      cases hg : seg.isGreedy
-      · rfl
-      · have := honce hr hg
-        rw [hcmp]
-        simp only [Bool.true_and, decide_eq_false_iff_not]
-        omega
-    simp only [hgreedy, Bool.false_eq_true, if_false]
+    by_cases hgr : (seg.isGreedy && decide (count (v ++ tail) seg.comparePart > 1)) = true
+    · simp only [hgr, if_true]
+      simp only [Bool.and_eq_true, decide_eq_true_eq] at hgr
+      rw [hcmp] at hgr ⊢
+      exact hgreedy hr hgr.1 hgr.2
+    simp only [hgr, Bool.false_eq_true, if_false]
     have hns : (!seg.isGreedy && ((v ++ tail).take v.length).contains SLASH) = false := by
       rw [htake]
       rcases hslash with h | h
@@ -236,5 +237,45 @@ theorem findParamLen_fill {seg : Seg} {rest : List Seg} {v tail : Bytes}
     · rw [← hcmp] at hi
       rw [hi]
       simp only [hns, Bool.false_eq_true, if_false]
+
+/-- Stages (i) and (ii-a): as `findParamLen_fill_core`, for a greedy parameter whose search text
+    occurs at most once (`strings.Count ≤ 1`, the `indexOf` branch). -/
+theorem findParamLen_fill {seg : Seg} {rest : List Seg} {v tail : Bytes}
+    (hm : MetaOK (seg :: rest)) (hm2 : MetaOK2 (seg :: rest)) (hp : seg.isParam = true)
+    (hnext : nextNonGreedyParam rest = false)
+    (hesc : removeEscapeChar (nextConstCmp rest) = nextConstCmp rest)
+    (hslash : seg.isGreedy = true ∨ v.contains SLASH = false)
+    (hlast : rest = [] → tail = [])
+    (hidx : rest ≠ [] → indexOf (v ++ tail) (nextConstCmp rest) = some v.length)
+    (honce : rest ≠ [] → seg.isGreedy = true → count (v ++ tail) (nextConstCmp rest) ≤ 1) :
+    findParamLen (v ++ tail) seg = v.length :=
+  findParamLen_fill_core hm hm2 hp hnext hesc hslash hlast hidx
+    (fun hr hg hc => by have := honce hr hg; omega)
+
+/-! ### configuration normalisation helpers -/
+
+/-- case folding of the configuration -/
+def foldBytes (cfg : Config) (s : Bytes) : Bytes := if cfg.caseSensitive then s else toLower s
+
+theorem trimRight_append_same (s : Bytes) (c : Nat) (n : Nat) :
+    trimRight (s ++ List.replicate n c) c = trimRight s c := by
+  unfold trimRight
+  rw [List.reverse_append, List.reverse_replicate]
+  congr 1
+  induction n with
+  | zero => simp
+  | succ n ih => simp [List.replicate_succ, ih]
+
+theorem trimRight_of_last_ne (s : Bytes) (c : Nat) (h : s.getLast? ≠ some c) : trimRight s c = s := by
+  unfold trimRight
+  cases hr : s.reverse with
+  | nil => simp [List.reverse_eq_nil_iff.mp hr]
+  | cons x xs =>
+    have hx : s.getLast? = some x := by
+      rw [List.getLast?_eq_head?_reverse, hr]; rfl
+    have : (x == c) = false := by
+      rw [beq_eq_false_iff_ne]; intro hh; subst hh; exact h hx
+    simp only [List.dropWhile_cons, this, Bool.false_eq_true, if_false]
+    rw [← hr, List.reverse_reverse]
 
 end C03
